@@ -64,7 +64,14 @@ var c14Scenarios = [][]c14Op{
 	// whatever the library may treat specially); with c14Reprobe every query is repeated after the join
 	{{"MM", "@BIGA", ""}, {"MM", "@BIGB", ""}},
 	{{"MM", "@BIGA", ""}, {"NM", "@BIGB", ""}, {"MM", "@BIGB", ""}},
+	// scenario 15/16: values that are not valid UTF-8 (every other value in the scenarios is plain
+	// ASCII: paths that only such bytes reach), added concurrently; a longer one was added first
+	{{"ADD", "over \xff the moon", "K3"}, {"ADD", "under the \xfe sea \xc3", "K4"}},
+	{{"ADD", "over \xff the moon", "K3"}, {"ADD", "under the \xfe sea \xc3", "K4"}, {"MM", "x over \xff the moon y", ""}},
 }
+
+// c14InvalidFirst (scenarios 15/16): an invalid-UTF-8 value is registered while the classifier is built.
+var c14InvalidFirst bool
 
 // c14Reprobe (job parameter reprobe=yes, always for the big-text scenarios): after the concurrent
 // calls have returned, every query is run once more on the same classifier and is part of the
@@ -149,6 +156,9 @@ func c14Build(precomputed bool) *Classifier {
 	for i := 0; i < c14Extra; i++ {
 		vals = append(vals, [2]string{fmt.Sprintf("E%03d", i), c14ExtraValue(i)})
 	}
+	if c14InvalidFirst {
+		vals = append(vals, [2]string{"K0", "a rather long earlier value with \xff\xfe bytes that are not valid in it at all \xc3"})
+	}
 	for _, kv := range vals {
 		if precomputed {
 			cl.AddPrecomputedValue(kv[0], kv[1], searchset.New(kv[1], searchset.DefaultGranularity))
@@ -218,7 +228,8 @@ func c14Sched(c *vrep.Ctx) {
 	c14Extra = c.ParamInt("values", 0)
 	c14ValueBytes = c.ParamInt("valuebytes", 0)
 	ops := c14Scenarios[sc%len(c14Scenarios)]
-	c14Reprobe = c.Param("reprobe", "no") == "yes" || sc%len(c14Scenarios) >= 13
+	c14Reprobe = c.Param("reprobe", "no") == "yes" || (sc%len(c14Scenarios) >= 13 && sc%len(c14Scenarios) <= 14)
+	c14InvalidFirst = sc%len(c14Scenarios) >= 15
 	precomputed := c.Param("precomputed", "no") == "yes"
 	budget := c.ParamInt("budget", c.Pick(3, 5))
 	pol := vsync.Delay
